@@ -201,6 +201,9 @@ func (b *Builder) Enum(name, simple string, unsigned bool, opts ...OptSpec) *Str
 	for _, o := range opts {
 		ov := b.New("EnumOption")
 		ov.Set("Name", o.Name).Set("Value", o.Value).Set("UintValue", U64(o.UintValue)).Set("Deprecated", o.Deprecated)
+		if o.Deprecated {
+			ov.Set("DeprecatedMessage", "no longer\nused")
+		}
 		os = append(os, ov)
 	}
 	if len(os) > 0 {
